@@ -4,7 +4,7 @@
 # Writes /verif/seeded/<Cxx><v>/{patch.diff,<demo>,meta.json}. Removes the worktree afterwards.
 set -u
 ID=$1; V=$2
-SRC=/tmp/wt/out/$ID/$V
+SRC=${SEEDED_SRC:-/tmp/wt/out}/$ID/$V
 WT=/tmp/confirm/$ID$V
 OUT=/verif/seeded/$ID$V
 export GOFLAGS=-mod=mod GOPROXY=off
@@ -45,11 +45,11 @@ if [ $APPLY = ok ]; then
 fi
 cd /
 git -C /repo worktree remove --force "$WT"
-python3 - "$ID" "$V" "$APPLY" "$SUITE" "$DEMO_WITH" "$DEMO_WITHOUT" "$DIR/$DEMOBASE" <<'PY'
+python3 - "$ID" "$V" "$APPLY" "$SUITE" "$DEMO_WITH" "$DEMO_WITHOUT" "$DIR/$DEMOBASE" "$SRC" <<'PY'
 import json,sys,os,re
-ID,V,APPLY,SUITE,DW,DWO,demo=sys.argv[1:]
+ID,V,APPLY,SUITE,DW,DWO,demo,src=sys.argv[1:]
 out=f"/verif/seeded/{ID}{V}"
-notes=open(f"/tmp/wt/out/{ID}/{V}/notes.md").read() if os.path.exists(f"/tmp/wt/out/{ID}/{V}/notes.md") else ""
+notes=open(f"{src}/notes.md").read() if os.path.exists(f"{src}/notes.md") else ""
 meta={"id":f"{ID}{V}","property":ID,"patch":"patch.diff","demo":demo,
  "confirmed":{"applies_to_repo_head":APPLY,"suite_with_change":SUITE,"demo_with_change":DW,"demo_without_change":DWO,
    "how":"tools/confirm_mutant.sh in a scratch worktree of /repo HEAD (hooks + fix commits included): go test -vet=off -count=1 ./... with the change; go test -run Seeded on the demo with and without the change"},
